@@ -36,10 +36,23 @@ Proof.
 Qed.
 
 Lemma sle_refl s : sle s s.
-Proof. split; [apply hle_refl | apply proms_le_refl]. Qed.
+Proof. split; [apply hle_refl | split; [apply proms_le_refl | apply incl_refl]]. Qed.
 
 Lemma sle_trans a b c : sle a b -> sle b c -> sle a c.
-Proof. intros [A1 A2] [B1 B2]. split; [eapply hle_trans | eapply proms_le_trans]; eauto. Qed.
+Proof.
+  intros (A1 & A2 & A3) (B1 & B2 & B3).
+  split; [eapply hle_trans; eauto | split; [eapply proms_le_trans; eauto | eapply incl_tran; eauto]].
+Qed.
+
+(** a state that agrees with [s] on promises and errors and whose heap is above *)
+Lemma sle_heap s s' :
+  hle (s_maps s) (s_maps s') -> s_proms s' = s_proms s -> s_errs s' = s_errs s -> sle s s'.
+Proof.
+  intros H P E. split; auto. split; [rewrite P; apply proms_le_refl | rewrite E; apply incl_refl].
+Qed.
+
+Lemma Fired_mono s s' x : sle s s' -> Fired s x -> Fired s' x.
+Proof. intros (_ & _ & I) (e & A & B). exists e. split; auto. Qed.
 
 Lemma full_hle H H' m slots :
   hle H H' -> nth_error H m = Some slots -> full slots ->
@@ -185,16 +198,18 @@ Lemma Live_mono_all G s G' s' : gle G G' -> sle s s' ->
   (forall nn v p c g, LiveW G s nn v p c g -> LiveW G' s' nn v p c g) /\
   (forall fp p c g, LiveF G s fp p c g -> LiveF G' s' fp p c g).
 Proof.
-  intros Hg [Hh Hp].
+  intros Hg Hs. pose proof Hs as (Hh & Hp & He).
   apply Live_mutind; intros; try (econstructor; eauto; fail).
   - (* LS_intro *)
     destruct (Hh m slots H) as (slots' & Hs' & L' & K').
     econstructor; eauto; try congruence.
     + eapply gle_nth; eauto.
-    + intros i key fp Hn. destruct (H4 i key fp Hn) as [Hin | [[x Hx] Hf]]; [now left|right].
-      split; auto. destruct (K' i x Hx) as (y & Hy). eauto.
+    + intros i key fp Hn. destruct (H4 i key fp Hn) as [Hin | [[x Hx] [Hf Hm]]]; [now left|right].
+      split; [destruct (K' i x Hx) as (y & Hy); eauto|]. split; auto.
+      eapply Forall_impl; [|exact Hm]. intros a. now apply Fired_mono.
   - (* LIt_ready *)
-    econstructor; eauto. eapply val_ok_mono; eauto.
+    econstructor; eauto; [eapply val_ok_mono; eauto|].
+    eapply Forall_impl; [|eassumption]. intros a. now apply Fired_mono.
   - (* LF_wait *)
     econstructor.
     destruct (nth_error (s_proms s) id) as [pr|] eqn:E; simpl in H; [|discriminate].
